@@ -2,6 +2,7 @@ package main
 
 import (
 	"fmt"
+	"strings"
 	"unsafe"
 
 	lucene "github.com/grindlemire/go-lucene"
@@ -197,4 +198,42 @@ func assignOrder(sc *Scenario) {
 	}
 	r := zsimrt.NewRand(sc.Seed ^ 0x73696d5f66697273)
 	sc.SimFirst = r.Intn(3) == 0
+	if !sc.SimFirst || r.Intn(2) == 0 {
+		return
+	}
+	// A FRESH input met by several tasks at once, for the first time in the process: one
+	// generated query (odd column names, several faults) is planted into two to four
+	// operations of different tasks — the entry points take it as their query, operations on a
+	// private expression as the query that expression is parsed from.
+	q := strings.ToValidUTF8(genMultiFault(r), "?")
+	if r.Intn(2) == 0 {
+		q = oddColumn(r) + ":" + pick(r, gWords) + pick(r, []string{" AND ", " OR ", " "}) + strings.ToValidUTF8(genTerm(r), "?")
+	}
+	type ref struct{ t, i int }
+	var where []ref
+	for t := range sc.Tasks {
+		for i := range sc.Tasks[t] {
+			op := &sc.Tasks[t][i]
+			switch op.Kind {
+			case KParse, KToPG, KToParam:
+				where = append(where, ref{t, i})
+			case KRender, KRenderParam, KCRender, KCRenderParam, KString, KValidate, KMarshal:
+				if op.Shared < 0 && op.Priv != nil && op.Priv.Kind == "parse" {
+					where = append(where, ref{t, i})
+				}
+			}
+		}
+	}
+	for n := 2 + r.Intn(3); n > 0 && len(where) > 0; n-- {
+		k := r.Intn(len(where))
+		op := &sc.Tasks[where[k].t][where[k].i]
+		if op.Priv != nil && op.Kind != KParse && op.Kind != KToPG && op.Kind != KToParam {
+			sp := *op.Priv
+			sp.Query = q
+			op.Priv = &sp
+		} else {
+			op.Query = q
+		}
+		where = append(where[:k], where[k+1:]...)
+	}
 }
